@@ -17,6 +17,7 @@ import (
 	"os"
 	"runtime"
 	"runtime/debug"
+	"runtime/pprof"
 	"sort"
 	"strings"
 	"sync"
@@ -641,6 +642,12 @@ func main() {
 		"process time zone UTC (C13 explores zones); single-node table names; ns-granular window bounds",
 	}
 	debug.SetGCPercent(400)
+	if pf := os.Getenv("C11_CPUPROFILE"); pf != "" {
+		if f, err := os.Create(pf); err == nil {
+			pprof.StartCPUProfile(f)
+			defer pprof.StopCPUProfile()
+		}
+	}
 
 	if q := os.Getenv("C11_QUERY"); q != "" {
 		adhoc(q)
@@ -706,6 +713,7 @@ func main() {
 	}
 	wg.Wait()
 	restoreStderr()
+	pprof.StopCPUProfile()
 
 	fold(r, cases, results, dbs, expired)
 }
